@@ -7,8 +7,8 @@
     [lg] is gammaln (uninterpreted), [fold] any function on flat entry lists commuting with scalar multiplication,
     [remask] the mask_corners flag with which Numerics.intersect_masks re-wraps its arguments. *)
 From Coq Require Import ZArith Reals List Bool Lra Lia.
-From Dadi Require Import Base.Num Base.NumR Model.Likelihood
-  Proofs.LikelihoodBasics Proofs.LikelihoodProofs Proofs.LikelihoodResid.
+From Dadi Require Import Base.Num Base.NumR Model.Fold Model.Likelihood
+  Proofs.LikelihoodBasics Proofs.LikelihoodProofs Proofs.LikelihoodResid Proofs.FoldND Proofs.LikelihoodFoldLink.
 Import ListNotations.
 Local Open Scope R_scope.
 
@@ -196,3 +196,54 @@ Proof. intros lg LG d m r.
     try lra; try exact LG.
   - unfold sum_over, joint_unmasked, maskat, valat; cbn; lra.
   - right; right; split; reflexivity. Qed.
+
+(** ** the fold of the likelihood functions IS the C09 model of Spectrum.fold (Proofs/LikelihoodFoldLink.v).
+    [fold_c09 s l] = combine (fold_data_l s (map ev l)) (fold_mask_l s (map em l)): Model/Fold.v's fold of an array of
+    shape s, on (value, mask) entries; [tot_of s] = the sum of the multi-index of every entry in C order,
+    [N_of s] = the total sample size: what the harness hands to [fold_flat].  For every shape: the executable
+    instance is the C09 fold on data and mask; the C09 fold commutes with scaling on every list; and the
+    auto-fold theorem holds with the C09 fold itself, no hypothesis on fold left. *)
+Theorem C11_autofold_uses_the_C09_fold : forall (lg : R -> R) (remask : bool) (s : list nat),
+  (forall l : list entryR, length l = size s ->
+     fold_flat (N_of s) (tot_of s) l = fold_c09 s l /\
+     map ev (fold_flat (N_of s) (tot_of s) l) = fold_data_l s (map ev l) /\
+     map em (fold_flat (N_of s) (tot_of s) l) = fold_mask_l s (map em l)) /\
+  (forall c l, fold_c09 s (scale c l) = scale c (fold_c09 s l)) /\
+  (forall m d : list entryR,
+     ll lg (fold_c09 s) false true m d = ll lg (fold_c09 s) true true (fold_c09 s m) d /\
+     ll_multinom lg (fold_c09 s) remask false true m d = ll_multinom lg (fold_c09 s) remask true true (fold_c09 s m) d /\
+     optimal_sfs_scaling (fold_c09 s) remask false true m d = optimal_sfs_scaling (fold_c09 s) remask true true (fold_c09 s m) d /\
+     (forall mf, auto_fold (fold_c09 s) mf false m = m) /\ auto_fold (fold_c09 s) true true m = m).
+Proof. exact autofold_uses_the_C09_fold. Qed.
+Print Assumptions C11_autofold_uses_the_C09_fold.
+
+(** the maximisation and invariance theorems with the C09 fold, hypothesis discharged *)
+Theorem C11_ll_multinom_is_max_over_scaling_C09_fold :
+  forall (lg : R -> R) (remask : bool) (s : list nat) (mf df : bool) (m d : list entryR) (c : R),
+  let m' := auto_fold (fold_c09 s) mf df m in
+  length m' = length d ->
+  (forall i, (i < length d)%nat -> maskat m' i = false -> maskat d i = false -> 0 < valat m' i) ->
+  0 < sum_over (length d) (joint_unmasked m' d) (valat d) ->
+  corner_ok remask m' d -> 0 < c ->
+  ll lg (fold_c09 s) mf df (scale c m) d <= ll_multinom lg (fold_c09 s) remask mf df m d
+  /\ ll_multinom lg (fold_c09 s) remask mf df m d
+     = ll lg (fold_c09 s) mf df (scale (optimal_sfs_scaling (fold_c09 s) remask mf df m d) m) d.
+Proof. exact ll_multinom_is_max_with_C09_fold. Qed.
+
+Theorem C11_ll_multinom_scale_invariant_C09_fold :
+  forall (lg : R -> R) (remask : bool) (s : list nat) (mf df : bool) (m d : list entryR) (c : R),
+  let m' := auto_fold (fold_c09 s) mf df m in
+  length m' = length d -> c <> 0 ->
+  sum_over (length d) (scaling_index_set remask m' d) (valat m') <> 0 ->
+  ll_multinom lg (fold_c09 s) remask mf df (scale c m) d = ll_multinom lg (fold_c09 s) remask mf df m d /\
+  optimal_sfs_scaling (fold_c09 s) remask mf df (scale c m) d = optimal_sfs_scaling (fold_c09 s) remask mf df m d / c.
+Proof. exact ll_multinom_scale_invariant_with_C09_fold. Qed.
+
+(** the C09 model's own likelihood ([ll_ls], Model/Fold.v: Spectrum records, fold_ls, refusals) returns, whenever it
+    returns, the C11 likelihood run with the C09 fold on the (data, mask) entries of the two spectra *)
+Theorem C11_C09_likelihoods_agree : forall (lg : R -> R) (model data : lspec R) (v : R),
+  length (ls_data model) = length (ls_mask model) ->
+  ll_ls lg model data = Some v ->
+  v = ll lg (fold_c09 (ls_shape model)) (ls_folded model) (ls_folded data) (entries_of model) (entries_of data).
+Proof. exact ll_ls_is_C11_ll_with_C09_fold. Qed.
+Print Assumptions C11_C09_likelihoods_agree.
